@@ -1521,7 +1521,7 @@ method or constructor of some type."""
             if (first_arg is not None) and first_arg.gi_name == origin_node.gi_name:
                 return False
 
-        if isinstance(target, ast.Class):
+        if isinstance(target, ast.Class) and isinstance(origin_node, ast.Class):
             parent = origin_node
             while parent and (not parent.gi_name == 'GObject.Object'):
                 if parent == target:
@@ -1538,6 +1538,16 @@ method or constructor of some type."""
                                        str(origin_node.create_type()),
                                        str(func.retval.type)))
                     return False
+            # Reaching GObject.Object without meeting the returned class means
+            # it is not an ancestor of the constructed class either
+            if parent != target:
+                message.warn_node(func,
+                                  "Return value is not superclass for constructor; "
+                                  "symbol='%s' constructed='%s' return='%s'" %
+                                  (func.symbol,
+                                   str(origin_node.create_type()),
+                                   str(func.retval.type)))
+                return False
         else:
             if origin_node != target:
                 message.warn_node(func,
